@@ -195,6 +195,32 @@ pub fn run(ctx: &Ctx) {
     done,
     n as u64,
   );
+  // acceptance of clock fields: every (hour 0..25, minute 0..61, second 0..61) on three days, and bad dates with good clocks
+  if ctx.primary() {
+    let mut l = Local::default();
+    for d in [(2023, 1, 31), (1582, 10, 4), (9999, 12, 31)] {
+      for h in 0..=25usize {
+        for mi in 0..=61usize {
+          for s in 0..=61usize {
+            l.transitions += 1;
+            let want = h < 24 && mi < 60 && s < 60;
+            let got = guard(|| SolarTime::new(d.0, d.1, d.2, h, mi, s).is_ok()).unwrap_or(false);
+            if got != want {
+              ctx.violation("construct", format!("{:04}-{:02}-{:02} {:02}:{:02}:{:02}", d.0, d.1, d.2, h, mi, s), format!("SolarTime::new accepted={} model {}", got, want), vec!["accept".into()]);
+            }
+          }
+        }
+      }
+    }
+    for bad in [(1582isize, 10usize, 10usize), (2023, 2, 29), (2023, 13, 1), (0, 1, 1), (10000, 1, 1)] {
+      l.transitions += 1;
+      if guard(|| SolarTime::new(bad.0, bad.1, bad.2, 12, 0, 0).is_ok()).unwrap_or(false) {
+        ctx.violation("construct", format!("{:04}-{:02}-{:02} 12:00:00", bad.0, bad.1, bad.2), "SolarTime::new accepted a non-existent date".into(), vec!["accept".into()]);
+      }
+    }
+    ctx.add(&l);
+    ctx.subspace("acceptance: every (hour 0..25, minute 0..61, second 0..61) on three days; five non-existent dates refused", true, 3 * 26 * 62 * 62);
+  }
   // (b) every second of 6 chosen days
   let days = [(1582, 10, 4), (1582, 10, 15), (2000, 2, 29), (1, 1, 1), (9999, 12, 31), (2023, 1, 31)];
   let done = par_chunks(ctx, 0, days.len() * 86400, 3600, |a, b, l| {
@@ -222,6 +248,10 @@ pub fn replay(ctx: &Ctx, args: &[String]) {
       let alpha = if n.len() > 1 { vec![n[1]] } else { alphabet(false) };
       println!("replay C12 instant {} steps {:?}", fmt_inst(&civ, n[0]), alpha);
       check_step(ctx, &civ, n[0], &alpha, &mut l);
+    }
+    "accept" => {
+      println!("replay C12 acceptance grid: re-running the property's serial sections");
+      run(ctx);
     }
     "rt" => {
       println!("replay C12 round trip of {}", fmt_inst(&civ, n[0]));
